@@ -1,4 +1,5 @@
 import PyaModel.Spec.SigAssignSpec
+import PyaModel.Spec.OverrideSpec
 import PyaModel.Generated.SigTypes
 /-! Line protocol driver for C07.
 in : `P <sig> | <sig>`                 expected | actual  (`Q …` = same, but search counterexamples
@@ -13,6 +14,13 @@ out: P: `acc=<0|1> cex=<-|npos;k1,k2> tcex=<-|npos;k1,k2> D=<-|class,class>`
         tcex = first call shape bound by both with an argument landing on a non-supertype annotation
         D    = exception classes of the pair
      O: `acc=<0|1>`
+     `H <class> ; <class> ; …`         a class hierarchy and ONE attribute name; class i (0-based, bases have smaller
+                                        indices) = `<bases: - | i,j> @ <member>`, member = `-` (not bound in the body) |
+                                        `m <sig>` (method, sig without self) | `s <sig>` (staticmethod) |
+                                        `p <tag> <0|1>` (property: getter type, has a setter)
+     out: one token per class `i|<mro: i,j,… or ERR>|<ok: 1 0 ->|<bad: ancestors it is incompatible with or ->|
+          <d: j:class+class,… exception classes / failed property spec per compared ancestor, or ->`
+          ok = model `overrideOk` (`-`: the class does not bind the name, or has no MRO)
 -/
 open Pya Pya.C07
 
@@ -55,6 +63,68 @@ def showCall : Option CCall → String
 
 def dedup (l : List String) : List String := l.foldl (fun acc x => if acc.contains x then acc else acc ++ [x]) []
 
+inductive HMember | absent | fn (m : FnMember Tag) | prop (ty : Tag) (settable : Bool)
+
+def parseMember (s : String) : Option HMember :=
+  let t := s.trimAscii.toString
+  if t == "-" then some .absent
+  else if t.startsWith "m " || t.startsWith "s " then
+    (parseSig (t.drop 2).toString).map fun sg => .fn ⟨t.startsWith "s ", toTDefSig sg⟩
+  else if t.startsWith "p " then
+    match words (t.drop 2).toString with
+    | [tg, st] => do
+      let tg ← parseTag tg
+      if st == "0" || st == "1" then some (.prop tg (st == "1")) else none
+    | _ => none
+  else none
+
+def parseClass (s : String) : Option (List Nat × HMember) :=
+  match s.splitOn "@" with
+  | [bs, m] => do
+    let bs := bs.trimAscii.toString
+    let bl ← if bs == "-" then some [] else (bs.splitOn ",").mapM (·.trimAscii.toString.toNat?)
+    let m ← parseMember m
+    some (bl, m)
+  | _ => none
+
+def HMember.toMember : HMember → Option (Member Tag)
+  | .absent => none
+  | .fn m => some (.fn (m.raw .any))
+  | .prop t s => some (.prop t s)
+
+def showNats (l : List Nat) : String := ",".intercalate (l.map toString)
+
+def pairClasses : HMember → HMember → List String
+  | .fn b, .fn c => d07FnClasses liveTyRel b c
+  | .prop bt bs, .prop ct cs => if propSpecOk tagIncl bt bs ct cs then [] else ["propSpecFails"]
+  | _, _ => []
+
+def handleH (rest : String) : String :=
+  match (rest.splitOn ";").mapM parseClass with
+  | none => "bad-op"
+  | some cs =>
+    if (cs.zipIdx.any fun (c, i) => c.1.any (· ≥ i)) then "bad-op" else
+    let mros := c3Mros (cs.map (·.1))
+    let defs (i : Nat) : Option (Member Tag) := (cs[i]?).bind fun c => c.2.toMember
+    let hm (i : Nat) : HMember := ((cs[i]?).map (·.2)).getD .absent
+    let toks := cs.zipIdx.map fun (c, i) =>
+      match mros.getD i none with
+      | none => s!"{i}|ERR|-|-|-"
+      | some mro =>
+        match c.2.toMember with
+        | none => s!"{i}|{showNats mro}|-|-|-"
+        | some ch =>
+          let anc := mro.drop 1
+          let ok := overrideOk liveTyRel defs anc ch
+          let bad := overrideBad liveTyRel defs anc ch
+          let ds := anc.filterMap fun j =>
+            match pairClasses (hm j) c.2 with
+            | [] => none
+            | l => some s!"{j}:{"+".intercalate l}"
+          let sh (l : List String) := if l.isEmpty then "-" else ",".intercalate l
+          s!"{i}|{showNats mro}|{if ok then 1 else 0}|{sh (bad.map toString)}|{sh ds}"
+    " ".intercalate toks
+
 def handle (line : String) : String :=
   if line.startsWith "P " || line.startsWith "Q " then
     let force := line.startsWith "Q "
@@ -81,6 +151,7 @@ def handle (line : String) : String :=
       | some es, some as => s!"acc={if ovCanAssign liveTyRel es as then 1 else 0}"
       | _, _ => "bad-op"
     | _ => "bad-op"
+  else if line.startsWith "H " then handleH (line.drop 2).toString
   else "bad-op"
 
 partial def loop (h : IO.FS.Stream) : IO Unit := do
